@@ -64,6 +64,7 @@ static lz4ref_result lz4_ref(const unsigned char *in, size_t in_size, unsigned c
         if (last) { r.n = (long)op; r.last_ll = ll; r.tail = in_size - (lit + ll); return r; }
         if (dist == 0 || dist > op) return r;                      /* offset outside the data produced so far */
         if (ml > cap - op) return r;
+        if (cap - op - ml < 5) return r;                           /* end-of-block rule: the last 5 bytes (LASTLITERALS) of the block are literals, so no match ends closer than 5 bytes to the end of the announced output (LZ4_decompress_safe: cpy > oend - LASTLITERALS is an error) */
         for (size_t i = 0; i < ml; ++i) out[op + i] = out[op - dist + i];
         op += ml; ip = ip2; r.nseq++;
     }
